@@ -205,3 +205,41 @@ func H_C11_reuse_errors() {
 		vAssert("same-kind", reflect.TypeOf(o0) == reflect.TypeOf(o1) && reflect.TypeOf(o0) == reflect.TypeOf(o2))
 	}
 }
+
+// H_C11_register: types and names registered one by one (RegisterType / RegisterVal / RegisterTypeMap,
+// RegisterNameType / RegisterNameMap) and Decoder.Reset / Encoder.Reset behave like maps given to the constructor.
+func H_C11_register() {
+	probe := &ZOuter{A: vInt32("a"), In: ZInner{N: 7, S: "in"}, P: &ZInner{N: 5, S: "p"}, Z: 11}
+	tm, nm := vExtractAll(probe)
+	fresh, ferr := NewEncoder(nil, nm).Encode(probe)
+	vAssert("fresh-ok", ferr == nil)
+	var e *Encoder
+	var d *Decoder
+	switch vChoice("how", 3) {
+	case 0:
+		e = NewEncoder(nil, nil)
+		e.RegisterNameType("ZOuter", "ZOuter")
+		e.RegisterNameType("ZInner", "ZInner")
+		d = NewDecoder(nil, nil)
+		d.RegisterType("ZOuter", reflect.TypeOf(ZOuter{}))
+		d.RegisterVal("ZInner", ZInner{})
+	case 1:
+		e = NewEncoder(nil, map[string]string{"stale": "x"})
+		e.RegisterNameMap(nm)
+		d = NewDecoder(nil, map[string]reflect.Type{"ZOuter": reflect.TypeOf(ZInner{})})
+		d.RegisterTypeMap(tm)
+	case 2:
+		w := &vBufWriter{}
+		e = NewEncoder(w, nm)
+		e.WriteObject(probe.P)
+		e.Reset(&vBufWriter{})
+		d = NewDecoder(&vCountingReader{b: w.b}, tm)
+		d.ReadObject()
+		d.Reset(&vCountingReader{})
+	}
+	b, err := e.Encode(probe)
+	vAssert("encode-same", err == nil && eqBytes(b, fresh))
+	o, err := d.Decode(fresh)
+	g, ok := o.(*ZOuter)
+	vAssert("decode-same", err == nil && ok && eqZOuter(probe, g))
+}
